@@ -3,10 +3,15 @@
     generic in the sample type and in the value functions) and Proofs/ImpedanceRP.v (analytic
     laws over R).  NOT covered by any theorem (explored numerically on the implementation by
     lib/props/C16.py): the parallel-plates values (Airy functions), the limits of that model,
-    and causality of the impulse response.  See DESIGN.md 5/C16. *)
+    and the one-sidedness of the impulse response in the continuum limit (what IS proved about
+    causality: section 5).  Sections 4-5 are about the definitions GENERATED from src/Z on every
+    run (Gen/Gen_Imp.v, translate/imp2coq.py); sections 1-3 about the hand-written loops and laws
+    they are proved equal to.  See DESIGN.md 5/C16. *)
 From Coq Require Import List ZArith QArith Qcanon Bool Reals Lra.
-From Inovesa Require Import Base.FieldKit Base.Float32 Model.Impedance Model.ImpedanceR
-  Proofs.ImpedanceP Proofs.ImpedanceRP Proofs.ImpedanceVP.
+From Inovesa Require Import Base.FieldKit Base.RInst Base.Float32 Base.Sums Model.DFT Proofs.DFTP Proofs.DFTInst Proofs.DFTThm
+  Proofs.CausalP.
+From Inovesa Require Import Model.Impedance Model.ImpedanceR Model.ImpKit Model.ImpedanceSpec Model.ImpGenInst
+  Gen.Gen_Imp Proofs.ImpedanceP Proofs.ImpedanceRP Proofs.ImpedanceVP Proofs.ImpedanceGenP Proofs.ImpedanceGenRP.
 Import ListNotations.
 Local Open Scope Z_scope.
 
@@ -180,3 +185,258 @@ Theorem C16_validator_meaning :
      sqrt ((1 - t) * x) <= v <= sqrt ((1 + t) * x)).
 Proof. exact (conj cube_rel_sound sqrt_rel_sound). Qed.
 Print Assumptions C16_validator_meaning.
+
+Local Close Scope R_scope.
+Local Open Scope Z_scope.
+
+(** * 4. The definitions generated from src/Z (Gen/Gen_Imp.v), for every field K, every
+    interpretation E of the leaves (pow, sqrt, log, abs, pi, c, Z0, the comparisons, the complex
+    addition, the parallel-plates constructor) and every sample count *)
+
+(** 4a. shape: every generated constructor returns exactly n samples, zero above n/2 (constant
+    and collimator: from n/2 on, where the constant sits below; parallel plates - of which only the
+    storing loop is translated, the Airy-function value being a leaf - also at 0), the factory's
+    start vector is zero - for every n >= 1, odd n included, whatever the sample expressions are *)
+Theorem C16_generated_shape :
+  forall (K : Fld) (E : Leaves K) (n : Z) (f_rev f_max f0 L s xi b : K) (z : cpx K) (outer inner : K), 1 <= n ->
+    (zlen (FreeSpaceCSR_ctor K E n f_rev f_max) = n /\
+     zero_above (cpx K) cpx0 (FreeSpaceCSR_ctor K E n f_rev f_max) (n / 2)) /\
+    (zlen (ResistiveWall_ctor K E n f0 f_max L s xi b) = n /\
+     zero_above (cpx K) cpx0 (ResistiveWall_ctor K E n f0 f_max L s xi b) (n / 2)) /\
+    (zlen (ConstImpedance_ctor K E n f_max z) = n /\
+     zero_above (cpx K) cpx0 (ConstImpedance_ctor K E n f_max z) (n / 2 - 1) /\
+     forall i, 0 <= i < n / 2 -> nthz cpx0 (ConstImpedance_ctor K E n f_max z) i = z) /\
+    (zlen (CollimatorImpedance_ctor K E n f_max outer inner) = n /\
+     zero_above (cpx K) cpx0 (CollimatorImpedance_ctor K E n f_max outer inner) (n / 2 - 1)) /\
+    (zlen (Impedance_zeros K E n) = n /\ zero_above (cpx K) cpx0 (Impedance_zeros K E n) (-1)) /\
+    (zlen (ParallelPlatesCSR_ctor K E n f0 f_max b) = n /\ nthz cpx0 (ParallelPlatesCSR_ctor K E n f0 f_max b) 0 = cpx0 /\
+     zero_above (cpx K) cpx0 (ParallelPlatesCSR_ctor K E n f0 f_max b) (n / 2)).
+Proof. exact gen_shape. Qed.
+Print Assumptions C16_generated_shape.
+
+(** 4b. values: the generated constructors are the loops of section 1 filled with the documented
+    sample expressions (Model/ImpedanceSpec.v: prefactor 306.3 + 176.9 i and exponent 1/3 at the
+    harmonic i f_max/f_rev/(n-1); Z1 (1 - i) sqrt(harmonic) with Z1 = sqrt(Z0 (1+xi) f0/s/pi/c) L/2/b;
+    the constant (Z0/pi ln(outer/inner), 0)), under the non-zero conditions the divisions need *)
+Theorem C16_generated_models :
+  forall (K : Fld) (E : Leaves K),
+    (forall n f_rev f_max, 1 <= n -> f_rev <> f0 -> @fz K (n - 1) <> f0 ->
+       FreeSpaceCSR_ctor K E n f_rev f_max = push_loop cpx0 n (sp_fs_sample E n f_rev f_max)) /\
+    (forall n fr f_max L s xi b, 1 <= n -> fr <> f0 -> @fz K (n - 1) <> f0 -> s <> f0 -> b <> f0 -> l_pi E <> f0 -> l_c E <> f0 ->
+       ResistiveWall_ctor K E n fr f_max L s xi b = push_loop cpx0 n (sp_rw_sample E n fr f_max L s xi b)) /\
+    (forall n f_max z, 0 <= n -> ConstImpedance_ctor K E n f_max z = const_vec cpx0 n z) /\
+    (forall n f_max outer inner, 0 <= n -> inner <> f0 -> l_pi E <> f0 ->
+       CollimatorImpedance_ctor K E n f_max outer inner = const_vec cpx0 n (sp_coll_Z E outer inner)) /\
+    (forall n, Impedance_zeros K E n = zero_vec cpx0 n) /\
+    (forall n fr f_max g, 0 <= n -> ParallelPlatesCSR_ctor K E n fr f_max g = pp_vec cpx0 n (l_PPs E n fr f_max g)).
+Proof.
+  exact (fun K E => conj (gen_fs_vec K E) (conj (gen_rw_vec K E) (conj (gen_const_vec K E) (conj (gen_coll_vec K E)
+                      (conj (gen_zeros K E) (gen_pp_vec K E)))))).
+Qed.
+Print Assumptions C16_generated_models.
+
+(** 4c. the root laws over the generic field (the cube root and the square root enter as leaves
+    with the hypothesis that they invert the cube / the square at the argument used): the cube of
+    each free-space component is prefactor^3 times the harmonic; the square of the wall's real part
+    is Z0 (1+xi) f0/(s pi c) (L/2b)^2 times the harmonic and its imaginary part is MINUS the real
+    part *)
+Theorem C16_generated_root_laws :
+  forall (K : Fld) (E : Leaves K),
+    (forall n f_rev f_max i,
+       let x := (@fz K i * sp_delta n f_rev f_max)%F in
+       let v := l_pw E x (f1 / three)%F in
+       let z := sp_fs_sample E n f_rev f_max i in
+       (v * v * v = x ->
+        fst z * fst z * fst z = fst (@sp_fs_Z0 K) * fst (@sp_fs_Z0 K) * fst (@sp_fs_Z0 K) * x /\
+        snd z * snd z * snd z = snd (@sp_fs_Z0 K) * snd (@sp_fs_Z0 K) * snd (@sp_fs_Z0 K) * x)%F) /\
+    (forall n fr f_max L s xi b i,
+       let x := (@fz K i * sp_delta n fr f_max)%F in
+       let a := (l_Z0 E * (f1 + xi) * fr / s / l_pi E / l_c E)%F in
+       let z := sp_rw_sample E n fr f_max L s xi b i in
+       (l_sq E a * l_sq E a = a -> l_sq E x * l_sq E x = x ->
+        fst z * fst z = sp_rw_k E fr L s xi b * x /\ snd z = - fst z)%F).
+Proof. exact (fun K E => conj (sp_fs_cube K E) (sp_rw_square K E)). Qed.
+Print Assumptions C16_generated_root_laws.
+
+(** 4d. the generated operator+= is the pointwise sum of section 2a over the SHORTER operand
+    (std::min), and its loop stays inside both vectors *)
+Theorem C16_generated_sum :
+  forall (K : Fld) (E : Leaves K) (l r : list (cpx K)),
+    add_assign K E l r = add_into cpx0 (l_cadd E) l r /\
+    (0 <= fst (add_assign_range K E l r) /\ snd (add_assign_range K E l r) <= zlen l /\
+     snd (add_assign_range K E l r) <= zlen r).
+Proof. exact (fun K E l r => conj (gen_add_assign K E l r) (gen_add_assign_in_bounds K E l r)). Qed.
+Print Assumptions C16_generated_sum.
+
+(** 4e. the generated factory, with the generated constructors, in the real instance (its
+    conditions are order tests; they are evaluated by [lra] in every sign case of gap, s, xi and
+    r_coll, so any equivalent way of writing them proves the same theorem): nothing when no switch is
+    on, otherwise the pointwise sum (order: CSR, wall, collimator, file) of exactly the selected
+    contributions, each constructed with the documented arguments - parallel plates
+    (n, c/(2 pi R), fmax, gap) iff gap > 0 and use_csr; free space (n, c/(2 pi R), fmax) iff gap < 0
+    and use_csr; wall (n, frev, fmax, c/frev, s, xi, |gap/2|) iff gap <> 0, s > 0, xi >= -1;
+    collimator (n, fmax, |gap/2|, r_coll) iff gap <> 0 and 0 < r_coll < |gap/2|; the file iff named *)
+Theorem C16_generated_factory :
+  forall (c Z0 : R) (PP : Z -> R -> R -> R -> Z -> creal) n fmax R_bend frev gap use_csr s xi rc file,
+    0 <= n -> R_bend <> 0%R -> frev <> 0%R ->
+    makeImpedance RF (ER c Z0 PP) n fmax R_bend frev gap use_csr s xi rc file =
+    let E := ER c Z0 PP in
+    if g_any_selected E gap use_csr s xi rc file
+    then Some (pointwise_sum cr0 cr_add n
+                 (g_parts E (ParallelPlatesCSR_ctor RF E n (c / ((1 + 1) * PI * R_bend))%R fmax gap)
+                          (FreeSpaceCSR_ctor RF E n (c / ((1 + 1) * PI * R_bend))%R fmax)
+                          (ResistiveWall_ctor RF E n frev fmax (c / frev)%R s xi (Rabs (gap / (1 + 1))))
+                          (CollimatorImpedance_ctor RF E n fmax (Rabs (gap / (1 + 1))) rc)
+                          gap use_csr s xi rc file))
+    else None.
+Proof. exact gen_factory_R. Qed.
+Print Assumptions C16_generated_factory.
+
+(** the same for arbitrary constructors of the four models: [makeImpedance_with] is the function
+    the correspondence runs in its Qc instance (extracted, [gen_factory_q]) with the
+    implementation's own vectors *)
+Theorem C16_generated_factory_with :
+  forall (c Z0 : R) (PP : Z -> R -> R -> R -> Z -> creal) PPc FSc RWc COLLc n fmax R_bend frev gap use_csr s xi rc file,
+    0 <= n -> R_bend <> 0%R -> frev <> 0%R ->
+    makeImpedance_with RF (ER c Z0 PP) PPc FSc RWc COLLc n fmax R_bend frev gap use_csr s xi rc file =
+    sp_factory_with (ER c Z0 PP) PPc FSc RWc COLLc n fmax R_bend frev gap use_csr s xi rc file.
+Proof. exact gen_factory_with_R. Qed.
+Print Assumptions C16_generated_factory_with.
+
+(** the switches of the specification mean what the property text says *)
+Theorem C16_switch_meaning :
+  forall (c Z0 : R) (PP : Z -> R -> R -> R -> Z -> creal) gap use_csr s xi rc,
+    let E := ER c Z0 PP in
+    (g_sel_pp E gap use_csr = true <-> (0 < gap)%R /\ use_csr = true) /\
+    (g_sel_fs E gap use_csr = true <-> (gap < 0)%R /\ use_csr = true) /\
+    (g_sel_rw E gap s xi = true <-> gap <> 0%R /\ (0 < s)%R /\ (- (1) <= xi)%R) /\
+    (g_sel_coll E gap rc = true <-> gap <> 0%R /\ (0 < rc)%R /\ (rc < Rabs gap / 2)%R).
+Proof. exact switch_meaning. Qed.
+Print Assumptions C16_switch_meaning.
+
+Example C16_generated_factory_example :
+  (* n = 5 (odd), gap -1/2 (free space), csr on, wall on, collimator 1/8 < 1/4, file of 3 samples *)
+  let one := (Q2Qc 1, 0%Qc) in
+  let qs := map (fun z : cq => (this (fst z), this (snd z))) in
+  option_map qs
+    (gen_factory_q 5 (Q2Qc (-1 # 2)) true 1%Qc 0%Qc (Q2Qc (1 # 8))
+       [one; one; one; cq0; cq0] [(Q2Qc 2, 0%Qc); (Q2Qc 2, 0%Qc); (Q2Qc 2, 0%Qc); cq0; cq0]
+       [(Q2Qc 4, Q2Qc (-4)); (Q2Qc 4, Q2Qc (-4)); (Q2Qc 4, Q2Qc (-4)); cq0; cq0]
+       [(Q2Qc 8, 0%Qc); (Q2Qc 8, 0%Qc); cq0; cq0; cq0] (Some [one; one; one]))
+  = Some [(15, -4); (15, -4); (7, -4); (0, 0); (0, 0)]%Q /\
+  gen_factory_q 5 0%Qc true 1%Qc 0%Qc (Q2Qc (1 # 8)) [one] [one] [one] [one] None = None /\
+  qs (gen_sum_q [one; one; one] [one]) = [(2, 0); (1, 0); (1, 0)]%Q /\
+  qs (gen_const_q 5 one) = [(1, 0); (1, 0); (0, 0); (0, 0); (0, 0)]%Q.
+Proof. vm_compute. repeat split. Qed.
+
+Local Open Scope R_scope.
+
+(** 4f. real instance (pow := rpow, sqrt, ln, Rabs, PI, the order of R): the generated vectors
+    ARE the analytic vectors of section 3, so the laws 3a-3c are laws of the generated code *)
+Theorem C16_generated_models_R :
+  forall (c Z0 : R) (PP : Z -> R -> R -> R -> Z -> creal),
+    (forall n f_rev f_max, (2 <= n)%Z -> f_rev <> 0 ->
+       FreeSpaceCSR_ctor RF (ER c Z0 PP) n f_rev f_max = fs_vec n (f_max / f_rev / IZR (n - 1))) /\
+    (forall n fr f_max L s xi b, (2 <= n)%Z -> fr <> 0 -> s <> 0 -> b <> 0 -> c <> 0 ->
+       ResistiveWall_ctor RF (ER c Z0 PP) n fr f_max L s xi b =
+       rw_vec n (rw_Z1 Z0 (1 + xi) fr s c L b) (f_max / fr / IZR (n - 1))) /\
+    (forall n f_max ro ri, (0 <= n)%Z -> ri <> 0 ->
+       CollimatorImpedance_ctor RF (ER c Z0 PP) n f_max ro ri = coll_vec n Z0 ro ri).
+Proof. exact (fun c Z0 PP => conj (gen_fs_R c Z0 PP) (conj (gen_rw_R c Z0 PP) (gen_coll_R c Z0 PP))). Qed.
+Print Assumptions C16_generated_models_R.
+
+(** 4g. passivity of the generated factory on the whole documented domain: any sample count
+    n >= 2, any non-zero bending radius, positive revolution frequency, ANY gap (negative = free
+    space, zero = nothing, positive = parallel plates) with any combination of wall conductivity,
+    susceptibility, collimator radius, file and switches: every sample has Re >= 0, provided the
+    parallel-plates model and the file are passive (explored / input) *)
+Theorem C16_generated_factory_passive :
+  forall (c Z0 : R) (PP : Z -> R -> R -> R -> Z -> creal) n fmax R_bend frev gap use_csr s xi rc file v,
+    (2 <= n)%Z -> 0 < c -> 0 < Z0 -> R_bend <> 0 -> 0 < frev ->
+    (forall a b g i, (1 <= i <= n / 2)%Z -> passive (PP n a b g i)) ->
+    (forall d, file = Some d -> Forall passive d) ->
+    makeImpedance RF (ER c Z0 PP) n fmax R_bend frev gap use_csr s xi rc file = Some v -> Forall passive v.
+Proof. exact gen_factory_passive. Qed.
+Print Assumptions C16_generated_factory_passive.
+
+(** 4h. the wall in the documented form (1 - i) L/(2b) sqrt(Z0 mu_r f/(pi s c)), f = f0 x *)
+Theorem C16_wall_closed_form :
+  forall Z0 mu_r fr s c L b x,
+    0 <= x -> 0 <= Z0 * mu_r * fr / s / PI / c -> b <> 0 -> s <> 0 -> c <> 0 ->
+    rw_sample (rw_Z1 Z0 mu_r fr s c L b) x =
+    (L / (2 * b) * sqrt (Z0 * mu_r * (fr * x) / (PI * s * c)),
+     - (L / (2 * b) * sqrt (Z0 * mu_r * (fr * x) / (PI * s * c)))).
+Proof. exact rw_closed_form. Qed.
+Print Assumptions C16_wall_closed_form.
+
+(** 4i. the free-space literals are the documented prefactor Z0 Gamma(2/3)/3^(1/3) (sqrt 3 + i)/2
+    (Z0 = 376.730313461 Ohm) to four significant digits; Gamma(2/3) = 1.35411... has no counterpart
+    in the available libraries and enters as an enclosed parameter; 3^(1/3) = exp(ln 3/3) = cbrt 3 *)
+Theorem C16_freespace_prefactor_documented :
+  (forall G, 135411 / 100000 <= G <= 135412 / 100000 ->
+     Rabs (fs_re - 376730313461 / 1000000000 * G / exp (ln 3 / 3) * (sqrt 3 / 2)) <= 5 / 100 /\
+     Rabs (fs_im - 376730313461 / 1000000000 * G / exp (ln 3 / 3) * (1 / 2)) <= 5 / 100) /\
+  exp (ln 3 / 3) = cbrt 3.
+Proof. exact (conj fs_prefactor_documented cbrt3_is_exp). Qed.
+Print Assumptions C16_freespace_prefactor_documented.
+
+(** * 5. Causality: what is proved *)
+
+(** 5a. phase of the samples at EVERY positive frequency: free space has positive real part and
+    the constant ratio Im/Re = 176.9/306.3 > 0, i.e. the argument atan(176.9/306.3) = pi/6 + 1.45e-4
+    (the enclosure is C16_freespace_prefactor_arg); the resistive wall has positive real part and
+    argument exactly -pi/4: the imaginary parts have OPPOSITE signs relative to the real parts *)
+Theorem C16_phase :
+  (forall x, 0 < x -> 0 < fst (fs_sample x) /\ snd (fs_sample x) / fst (fs_sample x) = fs_im / fs_re) /\
+  (forall Z1 x, 0 < Z1 -> 0 < x -> 0 < fst (rw_sample Z1 x) /\
+     atan (snd (rw_sample Z1 x) / fst (rw_sample Z1 x)) = - (PI / 4)).
+Proof. exact (conj fs_phase rw_phase). Qed.
+Print Assumptions C16_phase.
+
+Local Close Scope R_scope.
+Local Open Scope Z_scope.
+
+(** 5b. PARTIAL (named so): in the DFT model of ElectricField::wakePotential() (Model/DFT.v) the
+    response to a point source at u0 is [kernel Z (j - u0)]; Re Z makes its even part in the
+    distance from the source and Im Z its odd part; hence flipping the sign of Im Z relative to
+    Re Z (conjugation) MIRRORS the response about the source - an impedance acting ahead only
+    becomes one acting behind only -, a real impedance (collimator) acts symmetrically, acting on
+    one side only is the discrete dispersion relation [re_series = - im_series], and the response is
+    additive in the impedance (factory sums).  MISSING for the full causality clause: that the
+    power laws x^(1/3) e^{+i pi/6} and x^(1/2) e^{-i pi/4} satisfy that relation in the continuum
+    limit (Fourier transform of a one-sided power law) - explored numerically by the check. *)
+Theorem C16_causality_mirror_partial :
+  forall (K : Fld) (N : Z) (cs sn : Z -> K), twiddle_laws K cs sn ->
+    (forall Zi m, (kernel K N cs sn Zi m + kernel K N cs sn Zi (- m) = two * re_series K N cs Zi m /\
+                   kernel K N cs sn Zi m - kernel K N cs sn Zi (- m) = - (two * im_series K N sn Zi m))%F) /\
+    (forall Zi m, kernel K N cs sn (cconj K Zi) m = kernel K N cs sn Zi (- m)) /\
+    (forall Zi, (forall m, 0 < m -> kernel K N cs sn Zi (- m) = f0) ->
+                forall m, 0 < m -> kernel K N cs sn (cconj K Zi) m = f0) /\
+    (forall Zi m, kernel K N cs sn Zi (- m) = f0 <-> re_series K N cs Zi m = (- im_series K N sn Zi m)%F) /\
+    (forall Zi m, (forall k, snd (Zi k) = f0) -> kernel K N cs sn Zi (- m) = kernel K N cs sn Zi m) /\
+    (forall A B m, kernel K N cs sn (cplus K A B) m = (kernel K N cs sn A m + kernel K N cs sn B m)%F) /\
+    (2 <= N ->
+     (forall Zi stale u0 j, fresh_top K N stale -> 0 <= u0 < N ->
+        wake_padded N cs sn Zi stale (point_source K u0) j = kernel K N cs sn Zi (j - u0)) /\
+     (forall Zi stale u0 d, fresh_top K N stale -> 0 <= u0 < N ->
+        wake_padded N cs sn (cconj K Zi) stale (point_source K u0) (u0 + d) =
+        wake_padded N cs sn Zi stale (point_source K u0) (u0 - d)) /\
+     (forall A B stale p j, fresh_top K N stale ->
+        wake_padded N cs sn (cplus K A B) stale p j =
+        (wake_padded N cs sn A stale p j + wake_padded N cs sn B stale p j)%F)).
+Proof.
+  exact (fun K N cs sn L =>
+    conj (kernel_even_odd K N cs sn L)
+   (conj (kernel_mirror K N cs sn L)
+   (conj (one_sided_flips K N cs sn L)
+   (conj (one_sided_iff K N cs sn L)
+   (conj (real_impedance_symmetric K N cs sn L)
+   (conj (kernel_additive K N cs sn)
+         (fun N2 => conj (wake_point_source K N cs sn L N2)
+                   (conj (wake_mirror K N cs sn L N2) (wake_additive K N cs sn L N2))))))))).
+Qed.
+Print Assumptions C16_causality_mirror_partial.
+
+(** the hypotheses of 5b are satisfiable: the exact 4-point twiddle table *)
+Example C16_causality_example : twiddle_laws QcF cs4 sn4.
+Proof. exact (proj1 laws_Qc4). Qed.
